@@ -22,8 +22,10 @@ def floor_abs(spec, field="B"):
     """absolute floor (in units of `field`) for one source spec or a collection spec"""
     if spec["cls"] == "Collection":
         return sum(floor_abs(c, field) for c in spec.get("children", [])) or 0.0
-    if spec["cls"] in ("Sensor", "CustomSource"):
+    if spec["cls"] == "Sensor":
         return 0.0
+    if spec["cls"] == "CustomSource":
+        return 1e-9  # affine test functions of O(1..10) magnitude
     f = FLOOR_CLASS[spec["cls"]] * EPS * objs.exc_scale(spec)
     if field in ("H", "M"):
         f /= MU0
